@@ -168,7 +168,10 @@ DETECTED = [("digital_rf_write_samples_to_file", "H5Dwrite"), ("digital_rf_creat
             ("digital_rf_create_new_directory", "mkdir"),
             # a failed publish (rename/remove) at roll-over is an I/O failure like the others: it must latch has_failure,
             # otherwise the next write is accepted although the previous file was never published
-            ("digital_rf_create_hdf5_file", "digital_rf_close_hdf5_file")]
+            ("digital_rf_create_hdf5_file", "digital_rf_close_hdf5_file"),
+            # a failed write of the block index (its H5Dwrite status is returned by the helper): the data of this call is in the
+            # file but not described by the index, so the file must not be continued and published as if nothing had happened
+            ("digital_rf_write_samples_to_file", "digital_rf_write_rf_data_index")]
 
 
 def r2_sticky_failure(repo=None, rid="C10.R2", detected=None, title=None):
@@ -219,7 +222,7 @@ def r2_sticky_failure(repo=None, rid="C10.R2", detected=None, title=None):
                         v = n.ast.children[0].intval() if n.ast.children else None
                         if v is not None and v != 0 and n.id not in g.reach([g.entry.id], avoid=[cn.id]):
                             bad = n
-                        elif v is not None and v == 0 and callee in ("H5Dwrite",):
+                        elif v is not None and v == 0 and fname == "digital_rf_write_samples_to_file":
                             # write_samples_to_file signals an error by returning 0
                             if n.id not in g.reach([g.entry.id], avoid=[cn.id]):
                                 bad = n
